@@ -141,6 +141,7 @@ def parse_fn(e):
     from ghedesigner.enums import DesignGeomType, FlowConfigType
     vf = e.real('v', 1e-4, 10.0)
     got = {}
+    shadow(M, 'print', lambda *a, **k: None)
 
     class FakeDesign:
         def __init__(self, flow_rate, *a, flow_type=None, **k):
